@@ -488,7 +488,7 @@ def suite_random(ctx: Ctx) -> SuiteResult:
                            "scripted amount on every read and during callbacks; step schedulers with "
                            "1-25 updates; non-trivial = at least one firing and one idle update; "
                            "distinct by (kind, interval, scale, trace)")
-    n = ctx.n(2500, 50000)
+    n = ctx.n(5000, 60000)
     for i in range(n):
         r = ctx.rng.random()
         case = gen_step_case(ctx.rng) if r < 0.15 else gen_time_case(ctx.rng, "psc" if r < 0.4 else "time")
